@@ -55,11 +55,16 @@ def _sorted_rows(rows):
     return True
 
 
-def setop(sym, op, NA, NB, ncols, dom, bs=None):
+def setop(sym, op, NA, NB, ncols, dom, bs=None, presorted=False):
     na, nb = nrows(sym, 'na', NA), nrows(sym, 'nb', NB)
     A = _table(sym, 'a', na, ncols, dom)
     B = _table(sym, 'b', nb, ncols, dom)
     hdr = ['x', 'y', 'z'][:ncols]
+    if 'Md2' in dom:
+        hdr = ['a', 'b', 'c'][:ncols]      # a data row may equal the header row
+    if presorted:
+        from engine.shim import assume
+        assume(_sorted_rows(A) and _sorted_rows(B))
     ta = [hdr] + A
     tb = [list(hdr)] + B
     strict = sym.flag('strict') if op in ('complement', 'hashcomplement', 'diff', 'recordcomplement', 'recorddiff') else False
@@ -69,6 +74,8 @@ def setop(sym, op, NA, NB, ncols, dom, bs=None):
         tb = [[hdr[p] for p in perm]] + [[r[p] for p in perm] for r in B]
     with pickle_stub(), private_tempdir() as td:
         kw = dict(buffersize=bs, tempdir=td)
+        if presorted:
+            kw['presorted'] = True
         if op == 'complement':
             out = [tuple(r) for r in petl.complement(ta, tb, strict=strict, **kw)]
             check(out[0] == tuple(hdr), 'header', out[0])
@@ -145,6 +152,9 @@ def jobs(tier):
                 out.append(dict(name='%s/%dx%d/cols=%d/%s/bs=%s' % (op, na, nb, nc, dom, bs), func='setop',
                                 params=dict(op=op, NA=na, NB=nb, ncols=nc, dom=dom, bs=bs),
                                 budget=180 if q else 1200))
+    for op in ('complement', 'intersection', 'diff'):
+        out.append(dict(name='%s/presorted/2x2/cols=1/Od2' % op, func='setop',
+                        params=dict(op=op, NA=2, NB=2 if q else 3, ncols=1, dom='Od2', presorted=True), budget=180 if q else 1200))
     for op in ('recordcomplement', 'recorddiff'):
         out.append(dict(name='%s/cols=3/Id2+Id2+Id2/bs=None' % op, func='setop',
                         params=dict(op=op, NA=2 if q else 3, NB=1 if (q and op == 'recorddiff') else 2, ncols=3, dom='Id2+Id2+Id2', bs=None),
